@@ -83,9 +83,11 @@ def mk_parse(name, sign, base, pattern, what="parse"):
             return [("value-of-the-token", X.eq(env.ret(path), exp))]
         o = env.out(path, "out")
         bl = X.bitlen_nonneg(v, 64)
-        return [("base", X.eq(o[0], base)), ("digit-count", X.eq(o[1], nd)), ("fractional-digits", X.eq(o[2], 0)),
-                ("wide-enough", o[3] >= bl), ("sign", X.eq(o[4], 1 if sign == "-" else 0)),
-                ("first-numeral", X.eq(o[5], len(sign) + {2: 2, 8: 1, 10: 0, 16: 2}[base]))]
+        # only what is observable through the deduced type / value: enough bits, the sign, no fractional digits.
+        # (the reported base / digit count / first numeral are internal: e.g. "-07" is scanned as a 2-digit
+        # decimal, which denotes the same value)
+        return [("fractional-digits", X.eq(o[2], 0)), ("wide-enough", o[3] >= bl),
+                ("sign", X.eq(o[4], 1 if sign == "-" else 0))]
     return Kernel(name, args, ret, body, mode="int", alt_modes=("bv",), W=80, pre=pre, claims=claims, unwind=L + 8,
                   max_paths=60000, timeout=60, desc="%s(\"%s\")" % (what, text), tags={"family": what, "base": base, "nd": nd})
 
@@ -190,7 +192,7 @@ def ground_kernels(opts):
         k_ = mk_ground(n, "    return static_cast<std::int64_t>(cnl::unwrap(cnl::make_static_number(%s)));" % lit, "i64",
                        v >> tz if v else 0, "make_static_number(constant<%d>)" % v,
                        consts={"exp": "cnl::_impl::tag_of_t<%s>::exponent" % T}, cexpect={"exp": tz})
-        k_.tags = dict(k_.tags, what="make_static_number", neg_pow2=(v < 0 and (-v) & (-v - 1) == 0 and v != -1))
+        k_.tags = dict(k_.tags, what="make_static_number", neg_pow2=(v < 0 and (-v) & (-v - 1) == 0))
         ks.append(k_)
     for v, t in ((5, "int"), (-70000, "std::int32_t"), (255, "std::uint8_t")):
         n = "G%d" % len(ks)
@@ -201,17 +203,19 @@ def ground_kernels(opts):
 
 def kernels(opts):
     tier = opts["tier"]
-    shapes = []
+    core_shapes = []
     for sign in ("", "-", "+"):
-        shapes += [(sign, 10, "d"), (sign, 10, "ddddd"), (sign, 10, "d" * 9), (sign, 16, "d"), (sign, 16, "dddd"),
-                   (sign, 8, "d"), (sign, 8, "ddddddd"), (sign, 2, "d"), (sign, 2, "d" * 16)]
-    shapes += [("", 10, "d" * 18), ("-", 10, "d" * 19), ("", 10, "dd'ddd'ddd"), ("", 16, "d" * 8), ("-", 16, "d" * 15), ("", 16, "d" * 16),
-               ("", 16, "dd'dd"), ("", 8, "d" * 21), ("", 2, "d" * 63), ("", 2, "dddd'dddd")]
+        core_shapes += [(sign, 10, "d"), (sign, 10, "ddddd"), (sign, 16, "d"), (sign, 16, "dddd"),
+                        (sign, 8, "d"), (sign, 8, "ddddddd"), (sign, 2, "d"), (sign, 2, "d" * 16)]
+    long_shapes = [("", 10, "d" * 9), ("-", 10, "d" * 9), ("", 10, "d" * 18), ("-", 10, "d" * 19), ("", 10, "dd'ddd'ddd"), ("", 16, "d" * 8),
+                   ("", 16, "d" * 16), ("", 16, "dd'dd"), ("-", 16, "dd'dd"), ("", 8, "d" * 21),
+                   ("", 2, "d" * 63), ("", 2, "dddd'dddd")]
     if tier != "quick":
-        shapes += [("", 10, "d" * 20), ("", 8, "d" * 22), ("", 2, "d" * 64), ("-", 2, "d" * 63)]
+        long_shapes += [("", 10, "d" * 20), ("", 8, "d" * 22), ("", 2, "d" * 64), ("-", 16, "d" * 15), ("-", 8, "d" * 21), ("-", 2, "d" * 63)]
     else:
         rng = random.Random("c15/%s" % opts["seed"])
-        shapes = rng.sample(shapes, 16)
+        long_shapes = rng.sample(long_shapes, 8)
+    shapes = core_shapes + long_shapes
     ks = []
     for (sign, base, pat) in shapes:
         ks.append(mk_parse("K%d" % len(ks), sign, base, pat, "parse"))
